@@ -69,20 +69,22 @@ type trJ struct {
 	Injected bool   `json:"injected"`
 }
 type kase struct {
-	ID    string           `json:"id"`
-	Op    string           `json:"op"`
-	Args  map[string]any   `json:"args"`
-	Req   map[string]any   `json:"req"` // API-level request (for replay)
-	Fault *ckit.Addr       `json:"fault"`
-	IFlt  *ckit.Addr       `json:"impl_fault,omitempty"` // address used on the implementation
-	Fired bool             `json:"fired"`
-	Pre   snapJ            `json:"pre"`
-	Post  snapJ            `json:"post"`
-	Msgs  []msgJ           `json:"msgs"`
-	Ret   string           `json:"ret"`
-	Trace []trJ            `json:"trace"`
-	Impl  map[string]any   `json:"impl"`
-	Setup []map[string]any `json:"setup,omitempty"` // how to rebuild the pre-state (replay)
+	ID    string         `json:"id"`
+	Op    string         `json:"op"`
+	Args  map[string]any `json:"args"`
+	Req   map[string]any `json:"req"` // API-level request (for replay)
+	Fault *ckit.Addr     `json:"fault"`
+	IFlt  *ckit.Addr     `json:"impl_fault,omitempty"` // address used on the implementation
+	Fired bool           `json:"fired"`
+	Pre   snapJ          `json:"pre"`
+	Post  snapJ          `json:"post"`
+	Msgs  []msgJ         `json:"msgs"`
+	Ret   string         `json:"ret"`
+	Trace []trJ          `json:"trace"`
+	Impl  map[string]any `json:"impl"`
+	// usage-changing plugin calls made while the pod lock of the node\'s pod was not held
+	LockViol []string         `json:"lock_viol,omitempty"`
+	Setup    []map[string]any `json:"setup,omitempty"` // how to rebuild the pre-state (replay)
 }
 
 // world = one cluster + id canonicalisation
